@@ -26,6 +26,7 @@ from ..engine import (
     _runaway_observer,
 )
 from ..runner import V
+from ..engine import is_engine_exception as _is_engine_exception
 
 from pokerkit import HandHistory
 
@@ -187,6 +188,8 @@ def check(case, stats):
                 try:
                     got = h.to_pluribus_protocol()
                 except Exception as e:  # noqa: BLE001
+                    if not _is_engine_exception(e):
+                        raise     # harness fault: exit 2
                     return [V(ID, 'pluribus_raised', exc_key(e), repr(e))]
                 if got != want:
                     out.append(V(ID, 'pluribus_line', '',
@@ -212,6 +215,8 @@ def check(case, stats):
                 try:
                     got = list(h.to_acpc_protocol(pos))
                 except Exception as e:  # noqa: BLE001
+                    if not _is_engine_exception(e):
+                        raise     # harness fault: exit 2
                     return [V(ID, 'acpc_raised', exc_key(e),
                               f'seat {pos}: {e!r}')]
                 if got != exp:
@@ -238,6 +243,8 @@ def check(case, stats):
                             s._pkv_game, cfg['stacks'][0], line,
                             error_status=True))
                     except Exception as e:  # noqa: BLE001
+                        if not _is_engine_exception(e):
+                            raise     # harness fault: exit 2
                         out.append(V(ID, 'parse_back_failed', exc_key(e),
                                      f'{e!r} for {line}'))
                         return out
@@ -248,6 +255,8 @@ def check(case, stats):
                     try:
                         rs_ = list(hhs[0])[-1]
                     except Exception as e:  # noqa: BLE001
+                        if not _is_engine_exception(e):
+                            raise     # harness fault: exit 2
                         out.append(V(ID, 'parsed_history_replay_failed',
                                      exc_key(e), f'{e!r} for {line}'))
                         return out
